@@ -64,12 +64,12 @@ CHECKS = {
             'Exhaustive over 5 tree shapes x every well-typed subset of stored parameters (684 cases): Python type and value of every presented parameter, grouping of x[i] names, '
             'error for inactive/unknown parameters.',
             'INTEGER parameters declared with add_int_param are compared by value only (their Python type after the wire trip is not fixed by the property).'),
-    'C04': (MC, '5 C04', 'Deterministic cooperative scheduler runs the real RPC methods in real threads, yielding before every DataStore call and lock acquisition; schedules '
+    'C04': (MC, '5 C04', 'Spec B (VizierConcurrent.tla, PlusCal: one step per DataStore call / lock acquisition of every RPC) model-checked with TLC for 500+ call pairs and triples on four prefixes (Serializable, NoStuckOp, Termination); deterministic cooperative scheduler runs the real RPC methods in real threads, yielding before every DataStore call and lock acquisition; schedules '
             'enumerated by stateless DFS; every execution judged by the linearizability trace spec VizierLin.tla (silent Linearize steps over VizierAtomic.Apply, id renaming) with TLC',
             '34 call pairs/triples on prefix states; all schedules for pairs without SuggestTrials, preemption bound 2 for pairs with it (quick), all schedules (thorough): '
             'a trace is accepted iff some serial order of Spec A explains every response, error class and the final stored state up to renaming of trial ids; deadlock = no runnable thread.',
             'Granularity as C04 states: each DataStore method is atomic (it holds the datastore lock). Instrumentation replaces plain attributes of the servicer (datastore, three lock tables); '
-            'no repository hook. The PlusCal design-level model (Spec B) of DESIGN 4.2 is not ported yet: the code-level layer does not depend on it.'),
+            'no repository hook. Responses are compared as C04 states (error class, trials handed out); the final stored state is compared in full.'),
     'C05': (MC, '5 C05', 'VizierCrash.tla (Spec C: per-RPC chain of committed datastore states over VizierAtomic.Apply, recovery probes) model-checked with TLC; '
             'crash injection into the real SQLite-backed servicer at every statement / commit / datastore-return point (SQLAlchemy events), the file image reopened by a fresh servicer and compared with the model',
             'TLC checks on the model that single-resource calls have at most one durable step, that the chain ends in the acknowledged state, that every post-crash state is well-formed and usable '
